@@ -239,3 +239,14 @@ def drain {α σ} (next : σ → Outcome α σ) : Nat → σ → Option (List α
     | .item x s' => (drain next fuel s').map (x :: ·)
 
 end Konst.Range
+
+namespace Konst.Range
+
+/-- `konst::for_range!{x in start..end => body}` (konst_kernel/src/macros/control_flow.rs):
+    `let Range{mut start, end} = range; while start < end { let x = start; start += 1; body }`.
+    The values bound to `x`, in order (`fuel` bounds the number of turns). -/
+def forRange (start end_ : Int) : Nat → List Int
+  | 0 => []
+  | fuel + 1 => if start < end_ then start :: forRange (start + 1) end_ fuel else []
+
+end Konst.Range
